@@ -15,6 +15,16 @@ class Fail:
         self.kind = kind
 
 
+class ErrT:          # Err e   (Rust-level error of a Result-returning function)
+    def __init__(self, e):
+        self.e = e
+
+
+class MonT:          # a monadic Gallina expression in tail position
+    def __init__(self, m):
+        self.m = m
+
+
 class Bind:          # let* v := m in rest      (m: monadic Gallina expression, a string)
     def __init__(self, v, m, rest):
         self.v, self.m, self.rest = v, m, rest
@@ -53,7 +63,7 @@ class Fold:          # out := fold over lst of (fun st el => body) from init ; r
 def effectful(t):
     if isinstance(t, Ret):
         return False
-    if isinstance(t, (Fail, Bind)):
+    if isinstance(t, (Fail, Bind, ErrT, MonT)):
         return True
     if isinstance(t, BindT):
         return effectful(t.sub) or effectful(t.rest)
@@ -104,6 +114,12 @@ def render(t, mon, ind):
     if isinstance(t, Fail):
         assert mon
         return pad + "Panic " + t.kind
+    if isinstance(t, ErrT):
+        assert mon
+        return pad + "Err " + atom(t.e)
+    if isinstance(t, MonT):
+        assert mon
+        return pad + t.m
     if isinstance(t, Bind):
         assert mon
         if isinstance(t.rest, Ret) and t.rest.e == t.v:
@@ -114,7 +130,7 @@ def render(t, mon, ind):
             return render(t.sub, mon, ind)
         if effectful(t.sub):
             assert mon
-            return (pad + f"let* {lpat(t.pat)} :=\n" + render(t.sub, True, ind + 2) + " in\n" + render(t.rest, mon, ind))
+            return (pad + f"let* {t.pat} :=\n" + render(t.sub, True, ind + 2) + " in\n" + render(t.rest, mon, ind))
         return (pad + f"let {lpat(t.pat)} :=\n" + render(t.sub, False, ind + 2) + " in\n" + render(t.rest, mon, ind))
     if isinstance(t, Let):
         return pad + f"let {lpat(t.pat)} := {t.e} in\n" + render(t.rest, mon, ind)
@@ -132,7 +148,7 @@ def render(t, mon, ind):
     if isinstance(t, Fold):
         if effectful(t.body):
             assert mon
-            return (pad + f"let* {lpat(t.spat)} := fold_m (fun {lpat(t.spat)} {lpat(t.epat)} =>\n" + render(t.body, True, ind + 2)
+            return (pad + f"let* {t.spat} := fold_m (fun {lpat(t.spat)} {lpat(t.epat)} =>\n" + render(t.body, True, ind + 2)
                     + f")\n{pad}    {atom(t.lst)} {atom(t.init)} in\n" + render(t.rest, mon, ind))
         return (pad + f"let {lpat(t.spat)} := fold_left (fun {lpat(t.spat)} {lpat(t.epat)} =>\n" + render(t.body, False, ind + 2)
                 + f")\n{pad}    {atom(t.lst)} {atom(t.init)} in\n" + render(t.rest, mon, ind))
